@@ -152,7 +152,7 @@ class Flow(object):
                     outer_names = set(snames).difference(self.scope.locals)
                     declared = self.scope.globals
                     names = {n: snames[n] for n in outer_names if n not in declared}
-                    if declared:
+                    if declared and self.scope is not self.scope.top:
                         # names under a global declaration denote the module's
                         # variables, whatever the enclosing functions bind
                         tnames = self.scope.top.names
